@@ -113,6 +113,14 @@ def _do_make_formula_body(formula, default_value, assoc_value=None):
   formula_builder_text = _dedent(formula_builder_text)
   formula = formula_builder_text.get_text()
 
+  # Python ends a line at a lone "\r" too, but the line-based processing here and in textbuilder
+  # (indenting, commenting out a formula with a syntax error) only knows "\n". Turn lone "\r"s
+  # into "\n"s, as patches so that positions still map back to the original formula.
+  if '\r' in formula:
+    formula_builder_text = textbuilder.Replacer(formula_builder_text,
+        textbuilder.make_regexp_patches(formula, _lone_cr_re, '\n'))
+    formula = formula_builder_text.get_text()
+
   # Start with a temporary builder, since we need to translate "$" before we can parse the code at
   # all (namely, we turn '$foo' into 'DOLLARfoo' first). Once we can parse the code, we'll create
   # a proper set of patches. Note that we initially translate into 'DOLLARfoo' rather than
@@ -204,6 +212,7 @@ def _do_make_formula_body(formula, default_value, assoc_value=None):
   return final_formula
 
 
+_lone_cr_re = re.compile(r'\r(?!\n)')
 _whitespace_only_re = re.compile('^[ \t]+$', re.MULTILINE)
 _leading_whitespace_re = re.compile('(^[ \t]*)(?:[^ \t\n])', re.MULTILINE)
 
